@@ -16,7 +16,8 @@ theorem foldProg_disabled (st : Store) : ∀ (l : List Nat) (e : Enc), e.enabled
     exact foldProg_disabled st t e h
 
 theorem wp_encNewArgument {C : Prop} {sem : DSem} {st : Store} {d : Nat → Prop} {e : Enc} {w : World}
-    (hinv : st.Inv) (h : EInv sem st d e w) (hen : e.enabled = false) {l : Nat} (hfresh : ∀ i, ¬ st.Live i l) :
+    (hinv : st.Inv) (h : EInv sem st d e w) (hw : W0 w) (hen : e.enabled = false) {l : Nat}
+    (hfresh : ∀ i, ¬ st.Live i l) :
     wp C (encNewArgument st e l) w (fun p w' => p.1 = st.pushArg l ∧
       EInv sem (st.pushArg l) (fun j => d j ∨ j = st.labels.length) p.2 w' ∧ p.2.enabled = false) := by
   unfold encNewArgument
@@ -25,7 +26,7 @@ theorem wp_encNewArgument {C : Prop} {sem : DSem} {st : Store} {d : Nat → Prop
   rw [hmax]
   simp only
   rw [wp_bind]
-  refine wp_mono _ _ _ _ ?_ (wp_allocArg hinv h hfresh)
+  refine wp_mono _ _ _ _ ?_ (wp_allocArg hinv h hw hfresh)
   rintro e1 w1 ⟨hI, hen1⟩
   rw [updateAttacksTo_disabled _ _ _ (by rw [hen1, hen])]
   exact ⟨rfl, hI, by rw [hen1, hen]⟩
@@ -173,7 +174,7 @@ theorem wp_needArg {C : Prop} {st : Store} (hinv : st.Inv) {l id : Nat} (hl : st
   rw [(getArg_eq_some hinv).2 hl]
   rfl
 
-theorem wp_replayEvent {C : Prop} {sem : DSem} {r : Replay} {w : World} (h : RInv sem r w)
+theorem wp_replayEvent {C : Prop} {sem : DSem} {r : Replay} {w : World} (h : RInv sem r w) (hw : W0 w)
     (ev : Event) : ∀ (st1 : Store), (match Event.op ev with | none => st1 = r.af | some op => Eff r.af op st1) →
     wp C (replayEvent r ev) w (fun r' w' => r'.af = st1 ∧ RInv sem r' w') := by
   obtain ⟨hinv, hE, hen⟩ := h
@@ -193,7 +194,7 @@ theorem wp_replayEvent {C : Prop} {sem : DSem} {r : Replay} {w : World} (h : RIn
     injection h1 with h1; subst h1
     unfold replayEvent
     rw [wp_bind]
-    refine wp_mono _ _ _ _ ?_ (wp_encNewArgument hinv hE hen hfresh)
+    refine wp_mono _ _ _ _ ?_ (wp_encNewArgument hinv hE hw hen hfresh)
     rintro ⟨af', e'⟩ w' ⟨rfl, hE', hen'⟩
     have hinv' := inv_pushArg hinv hfresh
     have hlive : (r.af.pushArg l).Live r.af.labels.length l := live_pushArg.2 (Or.inr ⟨rfl, rfl⟩)
@@ -299,10 +300,13 @@ theorem wp_replayEvent {C : Prop} {sem : DSem} {r : Replay} {w : World} (h : RIn
 theorem EncInv.set_enabled {st : Store} {e : Enc} {Γ : Cnf} {T F : Nat → Bool} {d : Nat → Prop}
     (h : EncInv st e Γ T F d) (b : Bool) : EncInv st { e with enabled := b } Γ T F d :=
   ⟨h.vars_pos, h.sz_a, h.sz_s, h.av_live, h.sv_live, h.ty_arg, h.ty_sel, h.ty_disj, h.asm, h.asm_nodup,
-    h.ghostT, h.ghostF, h.ghostTF, h.acc, h.act⟩
+    h.ghostT, h.ghostF, h.ghostTF, h.acc, h.act, h.disj_cl⟩
 
-/-- the invariant of a dynamic solver between two calls of its API -/
+/-- the invariant of a dynamic solver between two calls of its API (`w0`: the shared SAT solver
+exists and every variable of its clauses is counted by `n_vars`, so that `new_solver_var` and the
+search selector of the preferred solver are fresh) -/
 structure DInv (sem : DSem) (d : DState) (w : World) : Prop where
+  w0 : W0 w
   af_inv : d.af.Inv
   clean : EInv sem d.af (fun _ => False) d.enc w
   disabled : d.enc.enabled = false
@@ -316,53 +320,53 @@ theorem wp_updateEncoding {C : Prop} {sem : DSem} {d : DState} {w : World} (h : 
       d'.buffer = d.buffer ∧ d'.next = d.buffer.length) := by
   unfold DState.updateEncoding
   rw [wp_bind]
-  have h0 : RInv sem { af := d.af, enc := d.enc } w ∧ EffRun d.af (d.buffer.drop d.next) d.pending := by
-    refine ⟨⟨h.af_inv, ?_, h.disabled⟩, h.sync⟩
+  have h0 : W0 w ∧ RInv sem { af := d.af, enc := d.enc } w ∧ EffRun d.af (d.buffer.drop d.next) d.pending := by
+    refine ⟨h.w0, ⟨h.af_inv, ?_, h.disabled⟩, h.sync⟩
     obtain ⟨hs, T, F, hI⟩ := h.clean
     exact ⟨hs, T, F, hI.weaken (fun j hj => hj.elim)⟩
   have hfold := wp_foldProg (C := C) replayEvent
-    (fun rest r w => RInv sem r w ∧ EffRun r.af rest d.pending)
+    (fun rest r w => W0 w ∧ RInv sem r w ∧ EffRun r.af rest d.pending)
     (d.buffer.drop d.next) { af := d.af, enc := d.enc } w h0 (by
-      intro ev rest r w ⟨hR, hrun⟩
+      intro ev rest r w ⟨hw, hR, hrun⟩
       cases hop : Event.op ev with
       | none =>
         have hrun' : EffRun r.af rest d.pending := by
           simp only [EffRun, hop] at hrun; exact hrun
-        refine wp_mono _ _ _ _ ?_ (wp_replayEvent hR ev r.af (by rw [hop]))
-        rintro r' w' ⟨haf, hR'⟩
-        exact ⟨hR', by rw [haf]; exact hrun'⟩
+        refine wp_mono _ _ _ _ ?_ (wp_W0 _ _ _ hw (wp_replayEvent hR hw ev r.af (by rw [hop])))
+        rintro r' w' ⟨hw', haf, hR'⟩
+        exact ⟨hw', hR', by rw [haf]; exact hrun'⟩
       | some op =>
         simp only [EffRun, hop] at hrun
         obtain ⟨st1, heff, hrun'⟩ := hrun
-        refine wp_mono _ _ _ _ ?_ (wp_replayEvent hR ev st1 (by rw [hop]; exact heff))
-        rintro r' w' ⟨haf, hR'⟩
-        exact ⟨hR', by rw [haf]; exact hrun'⟩)
+        refine wp_mono _ _ _ _ ?_ (wp_W0 _ _ _ hw (wp_replayEvent hR hw ev st1 (by rw [hop]; exact heff)))
+        rintro r' w' ⟨hw', haf, hR'⟩
+        exact ⟨hw', hR', by rw [haf]; exact hrun'⟩)
   refine wp_mono _ _ _ _ ?_ hfold
-  rintro r w1 ⟨⟨hinv, hE, hen⟩, hrun⟩
+  rintro r w1 ⟨hw1, ⟨hinv, hE, hen⟩, hrun⟩
   have haf : d.pending = r.af := hrun
   rw [wp_bind]
-  have h1 : (∀ a ∈ r.upd.filter r.af.hasId, r.af.hasId a = true) ∧
+  have h1 : W0 w1 ∧ (∀ a ∈ r.upd.filter r.af.hasId, r.af.hasId a = true) ∧
       EInv sem r.af (fun j => j ∈ r.upd.filter r.af.hasId) { r.enc with enabled := true } w1 ∧
       ({ r.enc with enabled := true } : Enc).enabled = true := by
-    refine ⟨fun a ha => (List.mem_filter.1 ha).2, ?_, rfl⟩
+    refine ⟨hw1, fun a ha => (List.mem_filter.1 ha).2, ?_, rfl⟩
     obtain ⟨hs, T, F, hI⟩ := hE
     refine ⟨hs, T, F, (hI.restrict ?_).set_enabled true⟩
     intro j hj hd
     exact List.mem_filter.2 ⟨hd, hj⟩
   have hfold2 := wp_foldProg (C := C) (updateAttacksTo r.af)
-    (fun rest e w => (∀ a ∈ rest, r.af.hasId a = true) ∧ EInv sem r.af (fun j => j ∈ rest) e w ∧ e.enabled = true)
+    (fun rest e w => W0 w ∧ (∀ a ∈ rest, r.af.hasId a = true) ∧ EInv sem r.af (fun j => j ∈ rest) e w ∧ e.enabled = true)
     (r.upd.filter r.af.hasId) { r.enc with enabled := true } w1 h1 (by
-      intro a rest e w ⟨hlive, hE', hen'⟩
-      refine wp_mono _ _ _ _ ?_ (wp_updateAttacksTo hinv hE' hen' (hlive a (by simp)))
-      rintro e' w' ⟨⟨hs, T, F, hI⟩, hen''⟩
-      refine ⟨fun b hb => hlive b (by simp [hb]), ⟨hs, T, F, hI.weaken ?_⟩, hen''⟩
+      intro a rest e w ⟨hw, hlive, hE', hen'⟩
+      refine wp_mono _ _ _ _ ?_ (wp_W0 _ _ _ hw (wp_updateAttacksTo hinv hE' hw hen' (hlive a (by simp))))
+      rintro e' w' ⟨hw', ⟨hs, T, F, hI⟩, hen''⟩
+      refine ⟨hw', fun b hb => hlive b (by simp [hb]), ⟨hs, T, F, hI.weaken ?_⟩, hen''⟩
       rintro j ⟨hj, hne⟩
       rcases List.mem_cons.1 hj with hj | hj
       · exact absurd hj hne
       · exact hj)
   refine wp_mono _ _ _ _ ?_ hfold2
-  rintro e w2 ⟨_, ⟨hs, T, F, hI⟩, _⟩
-  refine ⟨⟨hinv, ⟨hs, T, F, (hI.weaken (fun j hj => by simp at hj)).set_enabled false⟩, rfl, ?_, Nat.le_refl _⟩,
+  rintro e w2 ⟨hw2, _, ⟨hs, T, F, hI⟩, _⟩
+  refine ⟨⟨hw2, hinv, ⟨hs, T, F, (hI.weaken (fun j hj => by simp at hj)).set_enabled false⟩, rfl, ?_, Nat.le_refl _⟩,
     haf.symm, rfl, rfl, rfl⟩
   show EffRun r.af (d.buffer.drop d.buffer.length) d.pending
   rw [List.drop_length]
